@@ -66,5 +66,9 @@ Proof.
     try (solve [left; sm]); try (solve [right; sm]);
     try (solve [split; [sm|left; sm]]); try (solve [split; [sm|right; sm]]);
     try (solve [split; [sm|right; left; sm]]); try (solve [split; [sm|right; right; sm]]).
+  all: try (rewrite Ho in *; simpl in *; rewrite ?orb_true_r in *; discriminate).
+  all: try (left; unfold pend; match goal with E : t_pend (getth _ _) = _ |- _ => rewrite E end; sm; fail).
+  all: try (split; [sm|eexists; split; [reflexivity|unfold errof; intros; lia]]; fail).
+  all: try (split; [sm|left; split; [reflexivity|]; match goal with E : Nat.eqb _ _ = true |- _ => apply Nat.eqb_eq in E; subst; assumption end]; fail).
   all: match goal with |- ?G => idtac "GOAL" G end.
-Abort.
+Qed.
